@@ -247,9 +247,39 @@ var c16Modes = []c16Case{
 	{Mode: "bases", Bases: []string{"other.example", "s3.test:9000", ".dotted.example."}, Base: "s3.test:9000"},
 	{Mode: "bases", Bases: []string{"other.example", "s3.test:9000", ".dotted.example."}, Base: "dotted.example"},
 	{Mode: "bases", Bases: []string{"a.b.c.example.com", "s3.test"}, Base: "a.b.c.example.com"},
+	// overlapping bases: one configured base is a dot-suffix of another, in both orders
+	{Mode: "bases", Bases: []string{"example.com", "s3.example.com"}, Base: "s3.example.com"},
+	{Mode: "bases", Bases: []string{"example.com", "s3.example.com"}, Base: "example.com"},
+	{Mode: "bases", Bases: []string{"s3.example.com", "example.com", "eu.s3.example.com"}, Base: "eu.s3.example.com"},
+	{Mode: "bases", Bases: []string{"test:9000", "s3.test:9000", "s3.test"}, Base: "s3.test:9000"},
+}
+
+// c16HostStyle reports whether host is "<single label>.<base>" for one of the bases (the
+// statement of C16); every other host must be routed path-style.
+func c16HostStyle(host string, bases []string) bool {
+	for _, b := range bases {
+		b = strings.Trim(b, ".")
+		if strings.HasSuffix(host, "."+b) {
+			label := host[:len(host)-len(b)-1]
+			if !strings.Contains(label, ".") {
+				return true
+			}
+		}
+	}
+	return false
 }
 
 func c16Fallbacks(cs c16Case) []string {
+	var out []string
+	for _, h := range c16FallbackCandidates(cs) {
+		if !c16HostStyle(h, cs.Bases) {
+			out = append(out, h)
+		}
+	}
+	return out
+}
+
+func c16FallbackCandidates(cs c16Case) []string {
 	return []string{cs.Base, "x.y." + cs.Base, "unrelated.example.org", "bk0.s3.test:1234", "bk0" + cs.Base, "bk0.other-" + cs.Base, "localhost", "127.0.0.1:9000", "bk0.", ".", "bk0.s3.test.evil.com"}
 }
 
